@@ -59,7 +59,7 @@ def row_text(cls, t):
         return None
     if cls == 9:
         return TOK[0] + ">>" + TOK[0]  # the same reaction as a valid row 0 (duplicate inside the batch)
-    return t + ".[H][H]>>" + t  # valid and unbalanced (H2 on the reactant side): completed by the rule-based stage
+    return t + ">>" + t + ".O"  # valid and unbalanced (water on the product side): completed by the rule-based stage
 
 
 class _NoTB:
@@ -107,7 +107,7 @@ def h_rows(k0: int, k1: int, k2: int, bs: int) -> bool:
         data = [{"reaction": t, "tag": i} for i, t in enumerate(texts)]
     elif form == "dictid":
         # rows that carry their own 'id' column (values are not batch positions)
-        data = [{"id": "r%d" % (7 - i), "reaction": t, "tag": i} for i, t in enumerate(texts)]
+        data = [{"id": str(n - 1 - i), "reaction": t, "tag": i} for i, t in enumerate(texts)]
     else:
         data = Dataset([{"reaction": t, "tag": i} for i, t in enumerate(texts)])
     b = pipe.balancer(batch_size=None)
@@ -135,6 +135,11 @@ def h_rows(k0: int, k1: int, k2: int, bs: int) -> bool:
         return False
     for row, i in zip(out, expect):
         if row.get("input_reaction") != texts[i]:
+            return False
+        # each row describes that input: a balanced row is returned as given, the water-deficient row gets its water
+        if ks[i] in (0, 9) and not (row["reaction"] == texts[i] and row["solved"]):
+            return False
+        if ks[i] == 8 and not (row["reaction"] == TOK[i] + ".O>>" + TOK[i] + ".O" and row["solved"]):
             return False
     return True
 
